@@ -163,13 +163,28 @@ struct Slot {
     uint64_t c08_pill_gseq = 0, c08_pill_effect_gseq = 0, c08_last_reset_gseq = 0;
     uint64_t pending_pill_first_gseq = 0;
     bool pill_overflowed = false;
+    uint64_t batch_changed_gseq = 0, last_delivery_gseq = 0;
+    uint64_t tb_refused_gseq = 0;
+    int tb_success_since_refusal = 0;
+    int tb_polls_after_due = 0;
+    // C18: token bucket log
+    uint64_t tb_set_time = 0;
+    std::vector<uint64_t> tb_success_times;
+    uint64_t tb_refused_at = 0, tb_refused_polls = 0;
+    bool tb_refusal_armed = false;
+    // C19: occurrences of this module (gseq of observed edges)
+    std::vector<uint64_t> occ_started, occ_stopped;
+    uint64_t reg_gseq = 0;
+    std::map<std::string, int> sys_received;     // key "topic|senderslot" -> count
+    std::vector<uint64_t> tick_times;
     long pending = 0;                 // messages accepted for this module and still in its mailbox (mirror)
     bool pending_exact = true;        // false once something we cannot count may be in the mailbox (system notifications, flush-time uncertainty)
     bool pill_wildcard = false;       // a pill was sent to it by a final-flush handler: whether it is still pending is unknown
     std::set<std::tuple<int, long, long>> c09_model;
     // mirrors
     std::map<std::string, SubM> subs;
-    std::vector<std::pair<std::string, uint64_t>> sub_history;
+    struct SubH { std::string first; uint64_t second; unsigned flags; uint64_t gseq; };
+    std::vector<SubH> sub_history;
     std::set<uint64_t> oneshot_sub_uds;   // user data ids of one-shot subscriptions   // every (topic, user data) this module subscribed with since it last stopped
     std::vector<SrcM> srcs;
     std::vector<SrcM> recent_srcs;    // removed since the last quiescent point
@@ -190,6 +205,7 @@ struct LoopRun {
     uint64_t start_gseq = 0, end_gseq = 0;
     bool quit_requested = false;
     int quit_code = 0;
+    uint64_t quit_gseq = 0;
     bool ended = false;
     int rc = 0;
     bool poll_failure = false;
@@ -200,7 +216,7 @@ struct RetainedEvt { const m_evt_t *raw; EvtObs first; int slot; bool released =
 
 struct AutoReg { int fd; uint64_t file_id; int slot; uint64_t ud; bool closed = false; bool removed = false; uint64_t close_gseq = 0; };
 
-struct ApiRec { std::string name; int slot; int rc; int st_before; int st_after; uint64_t gseq; bool in_cb; };
+struct ApiRec { std::string name; int slot; int rc; int st_before; int st_after; uint64_t gseq; bool in_cb; int actor = -1; };
 
 struct World {
     Program prog;
@@ -252,7 +268,20 @@ struct World {
     int teardown_style = 0;
     bool keep_refs = true;
     uint64_t boundary_id = 0;
-    bool quiescent_real = false;   // the current quiescent point is a real poll (not the end of the start pass)
+    bool quiescent_real = false;
+    struct C16Expect { int slot; size_t k; bool seen; std::vector<StashM> want; };
+    std::vector<C16Expect> c16_expect;
+    struct C19Obl { int recipient; std::string topic; int sender; uint64_t gseq; bool done; };
+    std::vector<C19Obl> c19_obls;
+    uint64_t ctx_tick_set_gseq = 0;
+    bool c15_nested_cb_returned = false, c15_misc_null = false, c15_reserved_topic = false, c15_looping_at_entry = false;
+    int c15_name_holder = -1;
+    bool c18_tb_was_set_in_call = false;
+    uint64_t real_polls = 0;
+    uint64_t last_real_poll_time = 0;
+    bool c19_tick_ever = false;
+    uint64_t c19_min_tick_ns = 0;
+    int next_actor = -1;   // the current quiescent point is a real poll (not the end of the start pass)
     bool c07_looping_at_entry = false;
     std::map<int, int> c07_active_before;
     std::map<int, int> c07_edges_before;
@@ -289,6 +318,10 @@ void orc_loop_end(LoopRun &lr);
 void orc_run_end();
 std::string snapshot();
 void orc_c08_edge(int slot, int from, int to);
+void orc_c19_edge(int slot, int from, int to);
+void orc_c19_loop_edge(bool started);
+void orc_c13_loop_end(LoopRun &lr);
+void orc_c15_delivery(Delivery &d);
 void c09_check_counts(int slot, const char *after);
 void c09_register(int slot, int type, long k1, long k2, bool params_valid, int rc, bool update_in_place_ok, const std::string &snap0);
 void c09_deregister(int slot, int type, long k1, long k2, int rc, const std::string &snap0);
